@@ -146,8 +146,9 @@ impl World {
                 inst,
                 DataKind::OrderBookL1(OrderBookL1 {
                     last_update_time: t,
-                    best_bid: Some(Level::new(Decimal::from(m.v), Decimal::ONE)),
-                    best_ask: Some(Level::new(Decimal::from(m.v as u32 + 1), Decimal::TWO)),
+                    // one message in five has an empty side (the last ask lifted / the last bid hit)
+                    best_bid: (m.v % 10 != 0).then(|| Level::new(Decimal::from(m.v), Decimal::ONE)),
+                    best_ask: (m.v % 10 != 5).then(|| Level::new(Decimal::from(m.v as u32 + 1), Decimal::TWO)),
                 }),
             ),
             Key::Trade { inst } => (inst, DataKind::Trade(PublicTrade { id: format!("p{}", m.v), price: m.v as f64 / 4.0, amount: 1.0, side: Side::Buy })),
@@ -169,7 +170,7 @@ fn held(state: &DefaultState, k: Key) -> Option<(i64, String)> {
         }),
         Key::L1 { inst } => {
             let l1 = &state.instruments.instrument_index(&InstrumentIndex(inst as usize)).data.l1;
-            (l1.best_bid.is_some() || l1.best_ask.is_some()).then(|| (secs(l1.last_update_time), format!("{:?}", l1.best_bid.map(|l| l.price))))
+            (l1.best_bid.is_some() || l1.best_ask.is_some()).then(|| (secs(l1.last_update_time), format!("{:?}/{:?}", l1.best_bid.map(|l| l.price), l1.best_ask.map(|l| l.price))))
         }
         Key::Trade { inst } => state.instruments.instrument_index(&InstrumentIndex(inst as usize)).data.last_traded_price.as_ref().map(|p| (secs(p.time), format!("{}", p.value))),
     }
@@ -179,7 +180,7 @@ fn value_repr(w: &World, m: &Msg) -> String {
     match w.canon(m.key) {
         Key::Balance { .. } => format!("{}/{}", Decimal::from(m.v), Decimal::from(m.v)),
         Key::Order { .. } => format!("{}", Decimal::from(m.v as u32 % QTY)),
-        Key::L1 { .. } => format!("{:?}", Some(Decimal::from(m.v))),
+        Key::L1 { .. } => format!("{:?}/{:?}", (m.v % 10 != 0).then(|| Decimal::from(m.v)), (m.v % 10 != 5).then(|| Decimal::from(m.v as u32 + 1))),
         Key::Trade { .. } => format!("{}", Decimal::from_f64(m.v as f64 / 4.0).unwrap()),
     }
 }
